@@ -30,7 +30,7 @@ LEVEL = "model_checking"
 TECHNIQUE = ("explicit-state breadth-first exploration of symmetry-orbit graphs of the real solvers (generator words up to a bound, "
              "nodes merged by canonical rounding), differential covariance oracle at every node (mode G)")
 CLAIM = ("From every root (Riemann: Sod, all K=1 deviations of the state alphabet, the tabulated and JWL problems, both solvers; burn "
-         "time: default and all K=1 deviations of each family's alphabet) every word of length <= 3 (quick) / <= 4 (thorough) over the "
+         "time: default, all K=1 deviations of each family's alphabet and the 3D geometry with every single deviation; thorough: all K=2 deviations) every word of length <= 3 (quick) / <= 4 (thorough) over the "
          "generators (mirror, two boosts, membrane translation; translations, 30/90 degree rotations, reflections, detonator "
          "relabelling) is applied; at every distinct node the real solver is called on the transformed problem at the transformed "
          "points and compared with the transformed root output at every point of the lattice. Model checking of the bounded orbit "
@@ -73,10 +73,23 @@ def _hm():
     return hydro_more
 
 
+def burn_roots(fam, tier):
+    """default + every K=1 deviation; the 3D geometry combined with every other single deviation (so that 3D is explored
+    as widely as 2D); thorough: every K=2 deviation"""
+    alpha = B.ALPHABET[fam]
+    if tier == "thorough":
+        return lattice.enumerate_checked(alpha, 2)
+    devs = lattice.enumerate_checked(alpha, 1)
+    if "geometry" in alpha:
+        devs += [dict(dv, geometry=3) for dv in devs if dv and "geometry" not in dv]
+    return devs
+
+
 def tasks(tier, seed):
     hm = _hm()
     out = []
-    for solver in ("IGEOS", "GenEOS"):
+    # the expensive general-EOS orbits first (load balance); within a solver the roots are enumerated simplest first
+    for solver in ("GenEOS", "IGEOS"):
         roots = [{"dev": dev} for dev in lattice.enumerate_checked(hm.RIEMANN_ALPHABET, 1)]
         roots += [{"problem_name": n} for n in hm.RIEMANN_TABLE]
         if solver == "GenEOS":
@@ -84,7 +97,7 @@ def tasks(tier, seed):
         for r in roots:
             out.append({"kind": "riemann", "solver": solver, "root": r, "depth": DEPTH[tier], "tier": tier})
     for fam in ("Kenamond1", "Kenamond2", "Kenamond3", "CylindricalExpansion"):
-        for dev in lattice.enumerate_checked(B.ALPHABET[fam], 1):
+        for dev in burn_roots(fam, tier):
             out.append({"kind": "burn", "family": fam, "dev": dev, "depth": DEPTH[tier], "tier": tier})
     return out
 
@@ -229,9 +242,8 @@ def riemann_task(task):
             res["evals"] += 1
             return _fields(sol)
 
-        # root point lattice: 300 points over the window, widened so that it also covers both sides of a membrane near an edge
-        lo = min(root["xmin"], root["xd0"] - 0.6 * Lw)
-        hi = max(root["xmax"], root["xd0"] + 0.6 * Lw)
+        # root point lattice: 300 points of the declared window [xmin, xmax]
+        lo, hi = root["xmin"], root["xmax"]
         xs = np.linspace(lo, hi, 302)[1:-1]
         try:
             a_lat = root_eval(xs)
@@ -302,9 +314,18 @@ def riemann_task(task):
             else:
                 delta = IGEOS_DELTA * Lw
             a0, am, ap, delta = root_three(delta)
+            # judged: points inside the declared window of the root AND of the node (the solvers pad their internal grid
+            # beyond the declared window by a rule that is not translation-free -- 1.1 x the extreme wave position --, so
+            # outside it GenEOS resolves the same wave differently; the statement is about the solution on its domain)
+            inwin = (xs >= root["xmin"]) & (xs <= root["xmax"]) & (xp >= cfg["xmin"]) & (xp <= cfg["xmax"])
+            cnt("points_outside_a_declared_window", int((~inwin).sum()))
+            if not inwin.any():
+                cnt("nodes_without_common_window")
+                continue
             mism = {}
             nbad = {}
             nnear = 0
+            nout = 0
             for f in FIELDS:
                 if f == "velocity":
                     tr = [g["s"] * a[f] + g["w"] for a in (a0, am, ap)]
@@ -319,10 +340,13 @@ def riemann_task(task):
                 out = np.maximum(lo3 - b[f], b[f] - hi3) / den         # <= 0 inside the bracket
                 out = np.where(np.isnan(out), 1.0, out)
                 m = np.minimum(byval, np.maximum(out, 0.0))
-                nnear = max(nnear, int(((byval > tol) & (m <= tol)).sum()))
+                nout = max(nout, int(((m > tol) & ~inwin).sum()))
+                nnear = max(nnear, int(((byval > tol) & (m <= tol) & inwin).sum()))
+                m = np.where(inwin, m, 0.0)
                 mism[f] = float(m.max())
                 nbad[f] = int((m > tol).sum())
-            cnt("points_compared", len(xs))
+            cnt("points_outside_window_mismatching_not_judged", nout)
+            cnt("points_compared", int(inwin.sum()))
             cnt("points_compared_by_jump_position", nnear)
             w_ = max(mism.values())
             if not (pattern == "SCR" and du == "ne0" and solver == "IGEOS"):
@@ -333,7 +357,7 @@ def riemann_task(task):
                     solver, cfg, "riemann:covariance:" + kind, where, w_, tol,
                     root=root, root_pattern=root_pattern, group_element=g, worst_field=fbad, mismatch=mism, n_bad_points=nbad,
                     n_points=len(xs), delta=delta))
-            if not constant:
+            if not constant and float(np.ptp(a_lat["density"][inwin])) + float(np.ptp(a_lat["pressure"][inwin])) > 0.0:
                 res["nontrivial"].append("%s|%s|%s|%g" % (solver, rootname, word, t))
             if res["sample"] is None:
                 res["sample"] = {"solver": solver, "root": root, "word": word, "node_cfg": cfg, "group_element": g, "t": t,
@@ -512,7 +536,7 @@ def burn_task(task):
         for locus, m in (("axis_behind_obstacle", onaxis), ("elsewhere", ~onaxis)):
             e = np.where(m, diff - bound, -np.inf)
             if m.any():
-                ok = m & (diff <= bound)
+                ok = m & (diff <= bound) & (2.0 * fl0 <= TOL_BURN * T)     # calibration statistic: well-conditioned points only
                 if ok.any() and locus == "elsewhere":
                     worst = max(worst, float((diff[ok] / T).max()))
             if (e > 0).any():
